@@ -33,7 +33,13 @@ RegapT(g) == /\ Len(hist) < MaxCalls /\ g # gaps
              /\ gaps' = g /\ hist' = Append(hist, <<"regap", g>>)
              /\ UNCHANGED <<cur, res>>
 
-Align(mode) == AlignT(mode) /\ Emit([act |-> "Align", mode |-> mode, hist |-> hist, model |-> cur, gaps |-> gaps])
+(* How the model reaches an alignment APP (the apps take it as constructor arguments): the score table handed over *)
+(* explicitly, or - when its content is the apps' documented default, id 1 = make_dna_scoring_dict(10, -1, -8) -    *)
+(* left out, with the molecular type that selects the default given by name or as a MolType object.  The model    *)
+(* the call must be optimal for is <<cur, gaps>> in every case.                                                    *)
+DefaultContent == 1
+Vias == IF cur = DefaultContent THEN {"explicit", "default:name", "default:object"} ELSE {"explicit"}
+Align(mode) == AlignT(mode) /\ Emit([act |-> "Align", mode |-> mode, hist |-> hist, model |-> cur, gaps |-> gaps, vias |-> Vias])
 Next == \/ \E m \in {"global", "local"} : Align(m)
         \/ \E c \in Contents : EditT(c)
         \/ \E g \in Gaps : RegapT(g)
